@@ -18,6 +18,7 @@
                            T <hex of spelling>        one line per non-white token of the case file
                            ERR <number of errors reported by c2mir>
                            XCHK ok|bad
+                           TXT <hex of the `-E` text of the case file, `#line` lines removed>
                            END
 */
 #ifdef C09_C2MIR_C /* a copy of c2mir.c with a candidate repair applied (classification only) */
@@ -195,6 +196,7 @@ int main (int argc, char **argv) {
     /* strip "#line ..." lines, the <environment> part and white space, compare */
     {
       char *q = text, *out = text;
+      char *raw = malloc (text_len + 2), *rp = raw;
       int in_case = 0;
       while (q && *q) {
         char *e = strchr (q, '\n');
@@ -205,6 +207,9 @@ int main (int argc, char **argv) {
           char *qq = memchr (s, '"', l - (s - q));
           if (qq) in_case = strncmp (qq + 1, c09_name, strlen (c09_name)) == 0;
         } else if (in_case) {
+          memcpy (rp, q, l); /* before squeezing: `out` never passes `q` */
+          rp += l;
+          *rp++ = '\n';
           for (size_t i = 0; i < l; i++)
             if (q[i] != ' ' && q[i] != '\t') *out++ = q[i];
         }
@@ -214,6 +219,10 @@ int main (int argc, char **argv) {
       int ok = strcmp (text, c09_cat ? c09_cat : "") == 0;
       printf ("XCHK %s\n", ok ? "ok" : "bad");
       if (!ok && getenv ("C09_DEBUG")) fprintf (stderr, "text=[%s]\ncat =[%s]\n", text, c09_cat ? c09_cat : "");
+      printf ("TXT ");
+      for (char *r = raw; r < rp; r++) printf ("%02x", (unsigned char) *r);
+      printf ("\n");
+      free (raw);
     }
     free (text);
     printf ("END\n");
